@@ -748,7 +748,7 @@ def table_identities_exact(T, limit=5):
 
 def l2_cases(ctx, stream='l2', n=None):
     r = ctx.rng(stream)
-    n = n or ctx.n(10, 120)
+    n = n or ctx.n(10, 100)
     combos = [(p, b) for p in ORDERS for b in (False, True) if not (p == 1 and b)]
     r.shuffle(combos)
     cases = []
